@@ -131,7 +131,7 @@ def cons_operator_cases(rnd, tier):
         n = rnd.choice([2, 3, 5, 9, 20, 50])
         m = K1.random_mesh(rnd, n)
         n = m.ncell
-        recon = rnd.choice(fd.ALL_RECONS)
+        recon = rnd.choice(fd.TOKEN_RECONS)
         model = O.Recording(make_model(kind, rnd))
         bcs = [("per", "per")]
         if kind in ("euler1d", "nozzle", "shallowwater"):
@@ -174,8 +174,13 @@ def cons_operator_cases(rnd, tier):
 
 
 # ----------------------------------------------------------------------------- solves: conservation (C01c)
-def integrate(cls, m, disc, f, cfl, nit, dtlocal=False):
+def integrate(cls, m, disc, f, cfl, nit, dtlocal=False, entry="solve"):
     solver = getattr(fd.tnum, cls)(m, disc)
+    if entry == "legacy":
+        # the older public entry point: about nit steps up to one save time (one global step for every cell there too)
+        with np.errstate(all="ignore"):
+            T = float(f.time) + nit * float(np.min(disc.calc_timestep(f, cfl)))
+            return solver.solve_legacy(f, cfl, [T])[-1]
     kw = {"directives": {"dtlocal": True}} if dtlocal else {}
     with np.errstate(all="ignore"):
         # history of the integrator object: it has already served one short solve with the OTHER directive and another CFL number
@@ -206,7 +211,7 @@ def cons_solve_cases(rnd, tier):
         n = rnd.choice([3, 5, 8, 16]) if implicit else rnd.choice([3, 5, 10, 30])
         m = K1.random_mesh(rnd, n)
         n = m.ncell
-        recon = rnd.choice(fd.ALL_RECONS if not implicit else fd.LINEAR_RECONS + ["muscl_vanalbada"])
+        recon = rnd.choice(fd.TOKEN_RECONS if not implicit else fd.LINEAR_RECONS + ["muscl_vanalbada"])
         model = make_model(kind, rnd)
         wallbc = kind in ("euler1d", "nozzle", "shallowwater") and c % 2 == 1
         bl = br = "sym" if wallbc else "per"
@@ -222,7 +227,7 @@ def cons_solve_cases(rnd, tier):
             if wallbc:
                 prim[1] = prim[1] - np.mean(prim[1])      # no mean flow into the walls
             f0 = field_from_prim(model, m, prim)
-            f1 = integrate(cls, m, disc, f0, cfl, nit)
+            f1 = integrate(cls, m, disc, f0, cfl, nit, entry="legacy" if c % 4 == 3 else "solve")
         except Exception as ex:
             recs.append(O.raised_record(ex, model=kind, flux=str(flux), recon=recon, n=n, integrator=cls))
             continue
@@ -264,10 +269,19 @@ def shift_solve_cases_1d(rnd, tier):
         cls = rnd.choice(EXPLICIT + IMPLICIT)
         implicit = cls in IMPLICIT
         n = rnd.choice([2, 3, 4, 7, 16])
+        big = c in (1, 2, 3)
+        if big:
+            # the quantifier has no upper bound on the mesh size: a few LARGE periodic problems (600 unknowns and more), with the
+            # implicit integrators (whose linear algebra is the part that changes with size) and a low-storage explicit one
+            cls = ["implicit", "cranknicolson", "lsrk25bb"][c - 1]
+            implicit = cls in IMPLICIT
+            kind = ["convection", "convection", "euler1d"][c - 1]
+            flux = rnd.choice(FLUXES[kind])
+            n = [600, 530, 700][c - 1]
         m = fd.uniform(n, length=rnd.choice([1.0, 2.5]))
         # implicit: differentiable reconstructions only (a finite-difference Jacobian taken across a limiter kink turns
         # 1-ulp differences between the two runs into O(1e-7) ones -- ties are exact on symmetric data)
-        recon = rnd.choice(fd.ALL_RECONS if not implicit else fd.LINEAR_RECONS + ["muscl_vanalbada"])
+        recon = rnd.choice(fd.TOKEN_RECONS if not implicit else fd.LINEAR_RECONS + ["muscl_vanalbada"])
         model = make_model(kind, rnd)
         k = rnd.randrange(1, n)
         cfl = 0.3 if not implicit else (rnd.choice([0.5, 5.0]) if kind == "convection" else 0.5)
@@ -276,8 +290,8 @@ def shift_solve_cases_1d(rnd, tier):
             prim = random_prim(kind, rnd, n, mild=(not rough_ok(recon, m)) or implicit, nonrest=implicit)
             f0 = field_from_prim(model, m, prim)
             f0k = field_from_prim(model, m, [np.roll(p, k) for p in prim])
-            a = integrate(cls, m, disc, f0, cfl, 4)
-            b = integrate(cls, m, disc, f0k, cfl, 4)
+            a = integrate(cls, m, disc, f0, cfl, 4 if not big else 2)
+            b = integrate(cls, m, disc, f0k, cfl, 4 if not big else 2)
             Ra = [np.array(r) for r in disc.rhs(f0)]
             Rb = [np.array(r) for r in disc.rhs(f0k)]
         except Exception as ex:
@@ -653,7 +667,7 @@ def problem_1d(rnd, kind, implicit=False, uniform=False):
     else:
         w = np.array([rnd.choice([0.25, 0.5, 1.0, 0.75, 0.1]) for _ in range(n)])
         xf = np.concatenate([[0.0], np.cumsum(w)]) + rnd.choice([0.0, -1.5])
-    recon = rnd.choice(fd.ALL_RECONS if not implicit else fd.LINEAR_RECONS + ["muscl_vanalbada"])
+    recon = rnd.choice(fd.TOKEN_RECONS if not implicit else fd.LINEAR_RECONS + ["muscl_vanalbada"])
     flux = rnd.choice(FLUXES[kind])
     P = dict(kind=kind, xf=xf, recon=recon, flux=flux, n=n)
     wv = np.diff(xf)
@@ -949,7 +963,7 @@ def uniform_cases(rnd, tier):
         n = rnd.choice([1, 2, 3, 6, 17])
         m = K1.random_mesh(rnd, n)
         n = m.ncell
-        recon = rnd.choice(fd.ALL_RECONS)
+        recon = rnd.choice(fd.TOKEN_RECONS)
         W = uniform_state(kind, rnd)
         mkw = {}
         gam = 1.4
@@ -1062,12 +1076,15 @@ def uniform2d_cases(rnd, tier):
         rho, p = rnd.choice([1.0, 0.3, 40.0]), rnd.choice([1.0, 0.2, 1e3])
         cs = math.sqrt(gam * p / rho)
         # configurations are cycled (not left to chance): periodic at any angle, walls at rest, supersonic oblique inflow, duct
-        cfg = ["per", "insup_angle", "sym", "duct", "insup_angle", "per"][c % 6]
+        cfg = ["per", "insup_angle", "sym", "duct", "farfield", "per"][c % 6]
         if cfg == "per":
             mach = rnd.choice([0.0, 0.4, 0.9, 2.0])
             ang = rnd.choice([0.0, 30.0, 90.0, 135.0, -60.0, 180.0])
         elif cfg == "insup_angle":
             mach, ang = rnd.choice([1.5, 2.0, 3.0]), rnd.choice([30.0, -60.0, 20.0, -35.0, 0.0, 45.0])
+        elif cfg == "farfield":
+            # far-field box: the flow direction takes the degenerate values too (exactly 0, a right angle, a straight angle)
+            mach, ang = rnd.choice([1.5, 2.0, 3.0]), [0.0, 90.0, 180.0, -90.0, 30.0, -135.0, 0.0, -0.0][(c // 6) % 8]
         elif cfg == "sym":
             mach, ang = 0.0, 0.0
         else:
@@ -1088,6 +1105,20 @@ def uniform2d_cases(rnd, tier):
             bcl = dict(left={"type": "insup", "ptot": ptot, "rttot": rttot, "p": p, "angle": ang}, right={"type": "outsup"},
                        bottom=per, top=per)
             kindbc = "insup_angle"
+        elif cfg == "farfield":
+            # every side of the box: the imposed supersonic state (with its own ptot, rttot, p and flow angle) where the flow
+            # enters or runs along the side, supersonic outflow where it leaves
+            ptot = float(model0.nameddata("ptot", q)[0])
+            rttot = float(model0.nameddata("rttot", q)[0])
+            inward = {"left": (1.0, 0.0), "right": (-1.0, 0.0), "bottom": (0.0, 1.0), "top": (0.0, -1.0)}
+            ca, sa = math.cos(math.radians(ang)), math.sin(math.radians(ang))
+            bcl = {}
+            for side, (nx_, ny_) in inward.items():
+                if ca * nx_ + sa * ny_ > -1e-9:
+                    bcl[side] = {"type": "insup", "ptot": ptot, "rttot": rttot, "p": p, "angle": ang}
+                else:
+                    bcl[side] = {"type": "outsup"}
+            kindbc = "farfield"
         elif cfg == "duct":
             ptot = float(model0.nameddata("ptot", q)[0])
             rttot = float(model0.nameddata("rttot", q)[0])
@@ -1135,7 +1166,7 @@ def source_cases(rnd, tier):
         n = rnd.choice([1, 2, 4, 9, 20])
         m = K1.random_mesh(rnd, n)
         n = m.ncell
-        recon = rnd.choice(fd.ALL_RECONS)
+        recon = rnd.choice(fd.TOKEN_RECONS)
         flux = rnd.choice(FLUXES[kind])
         subset = [rnd.random() < 0.6 for _ in range(neq)]
         calls = []
